@@ -5,6 +5,7 @@ import (
 	"context"
 	"fmt"
 	"net"
+	"os"
 	"path/filepath"
 	"sort"
 	"strings"
@@ -13,6 +14,7 @@ import (
 	"time"
 
 	"github.com/btcsuite/btcd/chaincfg/v2"
+	"github.com/btcsuite/btclog"
 	"github.com/btcsuite/btcd/wire/v2"
 	"github.com/btcsuite/btcwallet/walletdb"
 	_ "github.com/btcsuite/btcwallet/walletdb/bdb"
@@ -150,6 +152,14 @@ func (w *World) startClient(tweak func(cfg *neutrino.Config)) error {
 		addrs = append(addrs, p.addr.String())
 	}
 	neutrino.DisableDNSSeed = true
+	if lvl := os.Getenv("VERIF_CLIENT_LOG"); lvl != "" {
+		// Debug aid only (never used by oracles): the client's own log.
+		backend := btclog.NewBackend(os.Stdout)
+		lg := backend.Logger("NTRN")
+		l, _ := btclog.LevelFromString(lvl)
+		lg.SetLevel(l)
+		neutrino.UseLogger(lg)
+	}
 	cfg := neutrino.Config{
 		DataDir:      w.dir,
 		Database:     db,
